@@ -1,3 +1,286 @@
 package main
 
-func genC16(c *Ctx) {}
+// C16: CueValidate is a total, deterministic function of its three arguments; its caches are unobservable.
+// Every triple is evaluated (a) first in a fresh process, (b) in this process after a random history of other
+// validations, (c) repeatedly, (d) under neutral re-spellings that defeat the caches; result trees returned earlier are
+// re-marshalled after all later calls. Malformed queries / schemas / steps feed the totality half.
+
+import (
+	"bufio"
+	"bytes"
+	"encoding/json"
+	"fmt"
+	"os"
+	"os/exec"
+	"strings"
+	"time"
+
+	"github.com/machship/mpath"
+)
+
+type c16Triple struct {
+	Q, S, CP string
+	cls      string
+	model    *cueCase // key-path triples are also given to the Lean model
+}
+
+func (o cueOut) canon() string { return o.Line + " | " + o.Errs + " | " + o.JSON }
+
+// canonLoose: the echo of the query text and the pretty-printed query removed (they legitimately change under re-spelling)
+func (o cueOut) canonLoose() string {
+	var tree any
+	if o.JSON == "" || json.Unmarshal([]byte(o.JSON), &tree) != nil {
+		return o.Line + " | " + o.JSON
+	}
+	var strip func(v any) any
+	strip = func(v any) any {
+		switch t := v.(type) {
+		case map[string]any:
+			delete(t, "string")
+			delete(t, "prettyPrintedString")
+			for k, x := range t {
+				t[k] = strip(x)
+			}
+		case []any:
+			for i, x := range t {
+				t[i] = strip(x)
+			}
+		}
+		return v
+	}
+	b, _ := json.Marshal(strip(tree))
+	return o.Line + " | " + string(b)
+}
+
+func init() {
+	// mpv cuefresh: one triple on stdin (JSON), its canonical result on stdout: the FIRST call of a fresh process
+	commands["cuefresh"] = func(args []string) {
+		quietStderr()
+		var t struct{ Q, S, CP string }
+		if json.NewDecoder(bufio.NewReader(os.Stdin)).Decode(&t) != nil {
+			os.Exit(3)
+		}
+		o := cueValidateGuarded(unhx(t.Q), unhx(t.S), unhx(t.CP)) // hex: the strings need not be valid UTF-8
+		b, _ := json.Marshal(map[string]string{"canon": hx(o.canon())})
+		os.Stdout.Write(b)
+	}
+}
+
+func c16Fresh(t c16Triple) (string, bool) {
+	in, _ := json.Marshal(map[string]string{"Q": hx(t.Q), "S": hx(t.S), "CP": hx(t.CP)})
+	cmd := exec.Command(os.Args[0], "cuefresh")
+	cmd.Stdin = bytes.NewReader(in)
+	var out bytes.Buffer
+	cmd.Stdout = &out
+	cmd.Env = append(os.Environ(), "GOMEMLIMIT=2GiB")
+	if err := cmd.Start(); err != nil {
+		return "", false
+	}
+	done := make(chan error, 1)
+	go func() { done <- cmd.Wait() }()
+	select {
+	case err := <-done:
+		var m map[string]string
+		if err != nil || json.Unmarshal(out.Bytes(), &m) != nil {
+			return "CRASH", true
+		}
+		return unhx(m["canon"]), true
+	case <-time.After(3 * caseTimeout):
+		cmd.Process.Kill()
+		return "TIMEOUT", true
+	}
+}
+
+func c16Triples(c *Ctx, n int) []c16Triple {
+	var ts []c16Triple
+	r := c.R
+	for len(ts) < n {
+		switch r.Intn(10) {
+		case 0, 1, 2, 3: // key paths on random schemas (also modelled)
+			g := &cueGen{r: r}
+			root, steps := c13Root(g, 3)
+			txt := cueSchemaText(g, root)
+			var ps [][]string
+			cueDeclaredPaths(root, nil, &ps, 0)
+			for k := 0; k < 3 && len(ps) > 0; k++ {
+				p := append([]string{}, ps[r.Intn(len(ps))]...)
+				if r.Intn(4) == 0 {
+					p = append(p, "zz")
+				}
+				cp := ""
+				if r.Intn(2) == 0 {
+					cp = steps[r.Intn(len(steps))]
+				}
+				q := "$." + strings.Join(p, ".")
+				ts = append(ts, c16Triple{q, txt, cp, "key-path", &cueCase{S: root, P: p, CP: cp, Dom: true}})
+			}
+		case 4, 5: // dependency graphs, cycles included
+			k := 3 + r.Intn(3)
+			var steps []string
+			for j := 0; j < k; j++ {
+				steps = append(steps, fmt.Sprintf("s%d", j+1))
+			}
+			edges := map[string][]string{}
+			for a := 0; a < k; a++ {
+				for b := 0; b < k; b++ {
+					if r.Intn(3) == 0 {
+						edges[steps[a]] = append(edges[steps[a]], steps[b])
+					}
+				}
+			}
+			if r.Intn(6) == 0 {
+				edges[steps[0]] = append(edges[steps[0]], "ghost")
+			}
+			_, txt := c15Schema(steps, edges, []string{"lonely"})
+			tgt := append([]string{"input", "lonely"}, steps...)[r.Intn(k+2)]
+			for _, pq := range c15Queries(tgt) {
+				ts = append(ts, c16Triple{pq[1], txt, steps[r.Intn(k)], "dependency-graph", nil})
+			}
+		case 6, 7: // function calls and chains
+			recvs := c14Receivers()
+			rc := recvs[r.Intn(len(recvs))]
+			root := &CTy{T: "struct", F: []*CField{{N: "input", M: "reg", Ty: &CTy{T: "struct", F: []*CField{
+				{N: "recv", M: "reg", Ty: rc.ty}, {N: "_dependencies", M: "reg", H: 1, Ty: &CTy{T: "deplist", V: []string{}}}}}}}}
+			txt := cueSchemaText(&cueGen{}, root)
+			names := funcNames()
+			fns := mpath.ListFunctions()
+			q := "$.input.recv"
+			for d := 0; d < 1+r.Intn(3); d++ {
+				fn := names[r.Intn(len(names))]
+				conf, _ := c14ArgLists(fns[mpath.FT_FunctionType(fn)])
+				q += "." + fn + "(" + strings.Join(conf[r.Intn(len(conf))], ",") + ")"
+			}
+			ts = append(ts, c16Triple{q, txt, "", "function-chain", nil})
+		default: // malformed stream (totality)
+			g := &cueGen{r: r}
+			root, steps := c13Root(g, 2)
+			txt := cueSchemaText(g, root)
+			qs := []string{"", " ", "// c", "$", "@", "$.", "$..a", "$.input.", "{", "{OR}", "{AND,$.input}", "$.input[", "$.input[@.a", "$.input.Equal(", "$.input.Equal(NaN)", "$.input?.x", "$.\xff\xfe", "$.input.NoSuch()", "$.input.name.Equal(\"unterminated", strings.Repeat("{", 50), "$.input" + strings.Repeat(".a", 200), randomBytes(r, 1+r.Intn(30))}
+			ss := []string{"", " ", "{", "input: {", "input: string | int", "input: null", "#D: {a: #D}\ninput: #D", "input: {a: string}\ninput: {a: int}", "x: y", "input: {_dependencies: [1]}", "input: {_dependencies: \"s\"}", "input: {_dependencies: [\"input\"]}", txt[:len(txt)/2], randomBytes(r, 1+r.Intn(40)), txt}
+			cps := []string{"", "input", "nosuchstep", " ", "input.a", steps[r.Intn(len(steps))]}
+			q := qs[r.Intn(len(qs))]
+			s := ss[r.Intn(len(ss))]
+			if r.Intn(3) == 0 {
+				s = txt
+			}
+			if r.Intn(4) == 0 {
+				q = "$.input"
+			}
+			ts = append(ts, c16Triple{q, s, cps[r.Intn(len(cps))], "malformed", nil})
+		}
+	}
+	return ts[:n]
+}
+
+func randomBytes(r *rng, n int) string {
+	b := make([]byte, n)
+	for i := range b {
+		b[i] = byte(r.Intn(256))
+	}
+	return string(b)
+}
+
+func genC16(c *Ctx) {
+	c.Rule = "triples (query, schema, current step) of four classes - key paths on random schemas, dependency graphs with cycles and dangling names (blocked field at the head / in a filter / argument / group), function calls and chains, and a malformed stream (empty, unterminated, non-UTF-8 and random-byte queries; schemas that do not compile, are truncated, contradictory, recursive or have ill-typed _dependencies; unknown steps) - each evaluated (a) as the first call of a fresh process, (b) in the long-running process after a random history of other validations, (c) twice in a row, (d) with trailing whitespace/comment added to the query and to the schema (different cache keys; compared after removing the echoed query text); every result tree returned earlier is marshalled again after all later calls. Oracle: all observations of one triple are identical after removing the random ids; no panic, no hang, never (nil, nil). distinct = distinct (class, verdict)"
+	n := c.scale(900, 9000)
+	ts := c16Triples(c, n)
+	type kept struct {
+		tc    mpath.CanBeAPart
+		canon string
+		t     c16Triple
+	}
+	var keep []kept
+	viol := func(t c16Triple, kind, why, a, b string) {
+		c.addViolation(Violation{Kind: "relational", Query: t.Q, QueryHex: hx(t.Q), Expected: trunc(a, 400), Got: trunc(b, 400), Why: why, Cls: t.cls,
+			Key: "c16:" + kind + ":" + t.cls, Extra: map[string]any{"schema": t.S, "current_step": t.CP}})
+	}
+	// shuffled order = the history
+	order := make([]int, len(ts))
+	for i := range order {
+		order[i] = i
+	}
+	for i := len(order) - 1; i > 0; i-- {
+		j := c.R.Intn(i + 1)
+		order[i], order[j] = order[j], order[i]
+	}
+	fresh := 0
+	for _, idx := range order {
+		t := ts[idx]
+		o := cueValidateGuarded(t.Q, t.S, t.CP)
+		var line []byte
+		if t.model != nil {
+			line, _ = json.Marshal(t.model)
+		} else {
+			line, _ = json.Marshal(map[string]any{"pos": "unmodelled", "q": hx(t.Q), "dom": false})
+		}
+		c.Record(line, o.Line, t.cls, true, t.cls, o.Line, map[string]any{"query": t.Q, "current_step": t.CP, "schema": trunc(t.S, 300), "impl": o.Line, "class": t.cls})
+		switch o.Line {
+		case "PANIC", "TIMEOUT", "NEITHER":
+			c.addViolation(Violation{Kind: "panic", Query: t.Q, QueryHex: hx(t.Q), Got: o.Line, Why: "CueValidate did not return a result or an error: " + o.Line + " " + trunc(o.Errs, 160), Cls: t.cls,
+				Key: "c16:total:" + o.Line, Extra: map[string]any{"schema": t.S, "current_step": t.CP}})
+			continue
+		}
+		// (c) repeated
+		o2 := cueValidateGuarded(t.Q, t.S, t.CP)
+		if o2.canon() != o.canon() {
+			viol(t, "repeat", "the same call gives a different result the second time", o.canon(), o2.canon())
+		}
+		// (d) neutral re-spellings
+		if !strings.ContainsAny(t.Q, "\"") && t.Q != "" && t.cls != "malformed" {
+			o3 := cueValidateGuarded(t.Q+" ", t.S, t.CP)
+			if o3.canonLoose() != o.canonLoose() {
+				viol(t, "respell-query", "a trailing space in the query changes the result", o.canonLoose(), o3.canonLoose())
+			}
+			o4 := cueValidateGuarded(t.Q, t.S+"\n// neutral comment\n", t.CP)
+			if o4.canonLoose() != o.canonLoose() {
+				viol(t, "respell-schema", "a trailing comment in the schema changes the result", o.canonLoose(), o4.canonLoose())
+			}
+		}
+		// (a) fresh process (every triple in quick; sampled in thorough to bound process spawns)
+		if !c.thorough() || c.R.Intn(3) == 0 {
+			if f, ok := c16Fresh(t); ok {
+				fresh++
+				if f != o.canon() {
+					viol(t, "fresh", "the first call of a fresh process gives a different result than the call after a history", f, o.canon())
+				}
+			}
+		}
+		// keep the tree for the re-marshal check
+		if tc, err := safeValidate(t); tc != nil && err == nil {
+			keep = append(keep, kept{tc, marshalNoIDs(tc), t})
+		}
+	}
+	for _, k := range keep {
+		if again := marshalNoIDs(k.tc); again != k.canon {
+			viol(k.t, "altered", "a result returned earlier marshals differently after later calls", k.canon, again)
+		}
+	}
+	c.Extra["fresh_process_comparisons"] = fresh
+	c.Extra["kept_trees_remarshalled"] = len(keep)
+}
+
+func safeValidate(t c16Triple) (tc mpath.CanBeAPart, err error) {
+	defer func() {
+		if r := recover(); r != nil {
+			tc, err = nil, fmt.Errorf("panic")
+		}
+	}()
+	tc, err = mpath.CueValidate(t.Q, t.S, t.CP)
+	if tc != nil && isNilIface(tc) {
+		return nil, err
+	}
+	return tc, nil
+}
+
+func marshalNoIDs(tc mpath.CanBeAPart) string {
+	b, err := json.Marshal(tc)
+	if err != nil {
+		return "marshal error"
+	}
+	var tree any
+	if json.Unmarshal(b, &tree) != nil {
+		return "unmarshal error"
+	}
+	nb, _ := json.Marshal(stripIDs(tree))
+	return string(nb)
+}
